@@ -131,6 +131,11 @@ def run(check, an: Analysis):
                    where_fn(wfn), 'the wrapper never calls `.close()` on a payload without '
                    'tolerating that it has none',
                    path=rules.path_lines(*unguarded) if unguarded else None)
+    # ... and by nothing else: a payload that is itself a task (`scope.do(other_task)`) or a
+    # condition is awaited, never told to end -- the task that wraps it is cancelled, not
+    # the activity it waits for (rule shared with C04)
+    from .c04 import check_payload_opaque
+    check_payload_opaque(check, an, 'once')
     # Done.__set_done__ raises the flag and triggers in one block
     setdone = an.callee(_scope.DONE, '__set_done__')
     for path in an.paths(setdone):
